@@ -1,8 +1,9 @@
 """Reusable rule helpers built on model primitives.  Every helper reports into a Report and
 fails closed when an anchor is missing."""
+import re
 from .model import (Ev, call_events, callee_is, must_pass, must_precede, ok_continuation_events,
                     witness_path, path_spans, place_local, op_local, op_place, is_bare, provenance,
-                    try_continuations, reach_positions, feasible_edges, place_str)
+                    try_continuations, reach_positions, feasible_edges, place_str, trace_back)
 
 
 def short(fid):
@@ -134,9 +135,19 @@ def rule_who_may_call(rep, prog, rule, names, what, allowed, key=None, floor=Non
     allowed: dict body-id -> reason.  Closures count as themselves."""
     key = key or "who-may-call %s" % what
     sites = prog.who_calls(names)
+    # callers are identified by the function the call is written in: a call that moves between the body of `f` and a
+    # closure inside `f` (loop <-> iterator adaptor, `?` <-> map_err closure) has not changed hands
+    from .panics import root_fn
+    folded = {}
+    for a, why in allowed.items():
+        r = root_fn(a)
+        folded[r] = why if r not in folded else folded[r] + "; " + why
+    if floor is not None:
+        floor = min(floor, len(folded))
+    allowed = folded
     callers = {}
     for (b, bi, t) in sites:
-        callers.setdefault(b.id, []).append((b, bi))
+        callers.setdefault(root_fn(b.id), []).append((b, bi))
     ok = True
     for c, lst in sorted(callers.items()):
         if c not in allowed:
@@ -784,3 +795,88 @@ def closure_capture(prog, closure_id, field_idx):
                 if field_idx < len(ops):
                     return pb, ops[field_idx]
     return None
+
+
+def callable_body(prog, body, operand):
+    """The body a callable operand denotes: a closure built in `body` (its aggregate) or a function item
+    (`sort_by(compare)` / `map_err(convert)`): the two spellings of the same thing.  None if it is neither."""
+    if operand is None:
+        return None
+    if "fn" in operand:
+        return prog.body(operand["fn"])
+    l = op_local(operand)
+    if l is None:
+        return None
+    tr = trace_back(body, l)
+    if not tr:
+        return None
+    last = tr[-1]
+    if last[0] == "agg":
+        return prog.body(last[1])
+    if last[0] == "fn":
+        return prog.body(last[1])
+    return None
+
+
+ITER_SELECT = re.compile(r"Iterator::(filter|filter_map|take|skip|step_by|take_while|skip_while|find|find_map|max_by|max_by_key|min_by|min_by_key|last|nth|reduce|position|max|min)$"
+                         r"|<impl \[T\]>::(first|last|get|split_at|split_first|split_last|chunks|windows)$|::(dedup|dedup_by|dedup_by_key|retain|truncate|drain|split_off|swap_remove|pop)$")
+ITER_PASS = re.compile(r"IntoIterator>?::into_iter$|<impl \[T\]>::iter$|::iter$|::iter_mut$|Iterator::(map|by_ref|copied|cloned|enumerate|rev|inspect|zip|chain|flat_map|flatten|peekable|fuse|map_while)$"
+                       r"|Deref::deref$|::as_slice$|AsRef::as_ref$|Borrow::borrow$")
+ITER_CONSUME = re.compile(r"Iterator::(sum|fold|try_fold|for_each|try_for_each|product|count|collect|all|any|unzip|extend)$|Extend::extend$|Sum::sum$")
+
+
+def whole_iteration(prog, body, src_block):
+    """Is every element of the collection returned by the call in `src_block` visited?  Two spellings are accepted:
+    a loop driven by `Iterator::next` on an iterator over it, or an adaptor chain that ends in a consumer of the whole
+    sequence (sum / fold / try_fold / for_each / collect ...); in both, no selecting adaptor (filter, take, skip, find,
+    first, ...) may sit between the collection and the consumer.  Returns (form or None, reason)."""
+    t0 = body.term(src_block)
+    d = t0.get("dest")
+    if d is None or not is_bare(d):
+        return None, "the result of the source call is not kept in a local"
+    from .model import flows_to
+    frontier = set(flows_to(body, d))
+
+    def close_refs():
+        grew = True
+        while grew:
+            grew = False
+            for bi_ in body.normal_blocks():
+                for st in body.stmts(bi_):
+                    if st.get("r") == "ref" and is_bare(st["d"]) and place_local(st["p"]) in frontier and st["d"] not in frontier:
+                        frontier.update(flows_to(body, st["d"]))
+                        frontier.add(st["d"])
+                        grew = True
+    seen_calls = set()
+    form = None
+    changed = True
+    while changed:
+        changed = False
+        close_refs()
+        for bi, t in body.calls():
+            if bi in seen_calls or not t.get("args"):
+                continue
+            a0 = op_local(t["args"][0])
+            if a0 is None or a0 not in frontier:
+                continue
+            f = t.get("f") or ""
+            seen_calls.add(bi)
+            if ITER_SELECT.search(f):
+                return None, "`%s` selects among the elements" % short(f)
+            if f.endswith("Iterator::next"):
+                if bi in body.reachable(tuple(body.succ(bi))):
+                    form = form or "loop"
+                else:
+                    return None, "a single `next()` outside a loop takes one element only"
+                continue
+            if ITER_CONSUME.search(f):
+                form = form or "chain"
+                continue
+            if ITER_PASS.search(f) and is_bare(t.get("dest", {"l": 0})) and "dest" in t:
+                new = set(flows_to(body, t["dest"])) - frontier
+                if new:
+                    frontier |= new
+                    changed = True
+    if form is None:
+        return None, "neither a `next()` loop nor a whole-sequence consumer (sum, fold, try_fold, for_each, collect ...) uses it"
+    return form, "%s over the whole collection" % form
